@@ -65,6 +65,7 @@ def demo(wt, src, meta):
 def main():
     src, ids = sys.argv[1].rstrip("/"), sys.argv[2].split(",")
     meta = json.load(open(os.path.join(src, "meta.json")))
+    meta.pop("what_i_ran", None)
     name = "%s-%s" % (meta["property"], meta["variant"])
     wt = "/tmp/ev-" + name
     sh("git -C /repo worktree remove --force %s" % wt, "/")
@@ -116,16 +117,27 @@ def main():
         shutil.rmtree("/verif/.work/alt-" + __import__("hashlib").md5(wt.encode()).hexdigest()[:8], ignore_errors=True)
     if ok:
         dst = os.path.join(VERIF, "seeded", name)
-        shutil.rmtree(dst, ignore_errors=True)
-        os.makedirs(dst)
-        for f in os.listdir(src):
+        if os.path.abspath(dst) != os.path.abspath(src):
+            shutil.rmtree(dst, ignore_errors=True)
+            os.makedirs(dst)
+        for f in ([] if os.path.abspath(dst) == os.path.abspath(src) else os.listdir(src)):
             s = os.path.join(src, f)
             if os.path.isdir(s):
                 shutil.copytree(s, os.path.join(dst, f))
             elif f != "meta.json":
                 shutil.copy(s, dst)
+        old = {}
+        try:
+            old = json.load(open(os.path.join(VERIF, "seeded", "index.json")))
+        except (OSError, ValueError):
+            pass
+        hist = old.get(name, {}).get("history", [])
+        hist.append({"at": result["evaluated_at"], "checks": {k: ("caught" if v["caught"] else "missed" if v["exit"] == 0 else "inconclusive") for k, v in result.get("checks", {}).items()}})
+        old[name] = {"property": meta["property"], "summary": meta.get("summary", "")[:300], "needs": meta.get("needs", "")[:300],
+                     "latest": hist[-1]["checks"], "history": hist}
         meta["what_i_ran"] = result
         json.dump(meta, open(os.path.join(dst, "meta.json"), "w"), indent=1, ensure_ascii=False)
+        json.dump(old, open(os.path.join(VERIF, "seeded", "index.json"), "w"), indent=1, ensure_ascii=False, sort_keys=True)
         print("filed under", dst)
     else:
         print("NOT kept:", name, json.dumps(result["steps"]))
